@@ -78,6 +78,18 @@ check("C24", "model_checking",
       "TLA+ derivation of error lines with position arithmetic, exhaustive TLC enumeration, spec->impl replay through the in-process compiler",
       "DESIGN.md section 6 C24")
 
+check("C25", "model_checking",
+      "ReplFraming.tla specifies the REPL wire protocol (inst | 16-bit size | data, continuation frames) on a scaled-down size field; TLC verifies for every interleaving of sends and every split of the byte stream into reads that decoded messages equal sent ones and that sender and decoder stay at a common frame boundary, and refutes the three historical deviations (saturating size field, to_bytes overflow, short reads) as model canaries. ReplCases.tla derives replay cases (sessions x message-length classes 0..2*65535+1 x read-size schedules); each is replayed in all sender/receiver combinations of the real Rust MessageStream (guarded verif_api) and the real Python MessageStream (class extracted from src/scripts/repl_server.py) over in-memory sockets delivering exactly the scheduled chunk sizes. Session level: inputs whose source or output size comes from the same classes are evaluated by erg::DummyVM against a real REPL server; reply i must be the result of input i.",
+      "Trusted: TLC; small-scope scaling of the size field (3 stands for 65535); the in-memory socket models.",
+      "TLA+ protocol spec model-checked over all stream splits; spec-derived cases replayed through both real framing implementations and real REPL sessions",
+      "DESIGN.md section 6 C25")
+
+check("C04", "model_checking",
+      "ConstFold.tla gives the Python-semantics value of every `a op b` over an operand grid of integers (boundaries 2**31, 2**63; arbitrary precision through BigInt.tla), dyadic floats and booleans for 15 arithmetic, comparison and boolean operators (2160 cases quick, 6.6 k thorough); TLC also checks the floor-division/modulo law on the reference itself. Each case is compiled in-process as a constant definition `N = a op b` (a compiler crash is a violation, an ordinary diagnostic is allowed) and as a run-time evaluation of the same expression through function parameters; both are executed and the printed compile-time value must equal the run-time value. The specification's value and CPython's value of the same expression are the second and third voters (cases where they disagree are excluded and counted).",
+      "Trusted: TLC; BigInt.tla / the dyadic float model (cross-checked against CPython on every run); the in-process compile harness and py/verif/pyrun.py.",
+      "TLA+ reference semantics enumerated by TLC; spec->impl replay comparing compile-time and run-time evaluation, CPython as third voter",
+      "DESIGN.md section 6 C04")
+
 NOT_APPLICABLE = {
     "C16": "static comparison of opcode/magic tables with external ground truth: no state or behaviour for a TLA+ specification to constrain (DESIGN.md section 7)",
     "C27": "data audit of ~150 declaration files against installed interpreters/typeshed: no behaviour to model in TLA+ (DESIGN.md section 7)",
